@@ -93,7 +93,7 @@ def shuffled(atom: Atom) -> List[Atom]:
         atom + ["int 0", "swap", "int 1", "select"],
         ["int 5"] + atom + ["cover 1", "pop"],
         ["int 5"] + atom + ["uncover 1", "pop"],
-    ] + cross_block(atom)
+    ]
     return out
 
 
